@@ -46,7 +46,8 @@ SLOTS = [
     ('reify_attributes', [False, True]),
     ('indicate_branches', [False, True]),
     ('rearrange', [None, 'canonical', 'alphanumeric', 'inverted-last',
-                   'attributes-first', 'attributes-first,canonical']),
+                   'attributes-first', 'attributes-first,canonical',
+                   'inverted-last,alphanumeric']),
     ('reconfigure', [None, 'original', 'canonical']),
     ('make_variables', [None, '{prefix}{j}', 'v{i}']),
     ('indent', [None, 'no', '-1', '0', '3']),
@@ -62,6 +63,10 @@ STREAMS = [
     '(a / alpha~1 :ARG0~e.2 (b / beta :polarity -) :ARG1-of b)\n'
     '(d / dog :name "Rex, the (dog)")',
     '',
+    # shapes the interpret/configure round trip rewrites, and siblings whose
+    # order depends on the priority of the sort keys
+    '(x / :polarity - :ARG0 (y /))\n'
+    '(a / alpha :ARG0-of (b / beta) :mod (c / gamma) :op10 1 :op9 2)\n',
 ]
 REARRANGE_KEYS = {'canonical': 'canonical_order',
                   'alphanumeric': 'alphanumeric_order',
@@ -215,7 +220,7 @@ def h_tool(k: int, **sym):
                 'a formatting option changed the content', argv)
         # (streams 0 and 1 carry doubly inverted roles, which are outside
         # "well-formed input" except :consist-of-of under the AMR model)
-        well_formed = si in (2, 3) or (si == 1 and o['model'] == 'amr')
+        well_formed = si in (2, 3, 4) or (si == 1 and o['model'] == 'amr')
         # normal form: feeding the output back reproduces it byte for byte
         if not o['reconfigure'] and not o['indicate_branches'] and (
                 well_formed or o['canonicalize_roles']):
